@@ -78,6 +78,7 @@ fn cmd_seq(args: &[String]) {
     let mut by_class: std::collections::BTreeMap<String, usize> = Default::default();
     let mut by_facade: std::collections::BTreeMap<String, usize> = Default::default();
     let mut by_op: std::collections::BTreeMap<String, usize> = Default::default();
+    let mut promise_checks = 0u64;
     let (mut max_tree_cmp, mut tree_lookups, mut max_bin, mut tree_bins, mut resizes) = (0u64, 0u64, 0usize, 0u64, 0u64);
     let mut nontrivial = std::collections::HashSet::new();
     let mut samples = vec![];
@@ -137,6 +138,7 @@ fn cmd_seq(args: &[String]) {
         max_bin = max_bin.max(res.max_bin);
         tree_bins += res.tree_bins_seen;
         resizes += res.resizes_seen;
+        promise_checks += res.promise_checks;
     }
     ops_f.flush().unwrap();
     impl_f.flush().unwrap();
@@ -144,9 +146,9 @@ fn cmd_seq(args: &[String]) {
         format!("{{{}}}", m.iter().map(|(k, v)| format!("{}:{}", json_str(k), v)).collect::<Vec<_>>().join(","))
     };
     let report = format!(
-        "{{\"cases\":{},\"ops\":{},\"distinct_nontrivial\":{},\"failures\":{},\"by_hash_class\":{},\"by_facade\":{},\"by_op\":{},\"max_tree_cmp\":{},\"tree_lookups\":{},\"max_bin\":{},\"tree_bin_snapshots\":{},\"resizes_seen\":{},\"samples\":{}}}",
+        "{{\"cases\":{},\"ops\":{},\"distinct_nontrivial\":{},\"failures\":{},\"by_hash_class\":{},\"by_facade\":{},\"by_op\":{},\"max_tree_cmp\":{},\"tree_lookups\":{},\"max_bin\":{},\"tree_bin_snapshots\":{},\"resizes_seen\":{},\"promise_checks\":{},\"samples\":{}}}",
         cases, total_ops, nontrivial.len(), json_list(&failures),
-        fmt_map(&by_class), fmt_map(&by_facade), fmt_map(&by_op), max_tree_cmp, tree_lookups, max_bin, tree_bins, resizes, json_list(&samples)
+        fmt_map(&by_class), fmt_map(&by_facade), fmt_map(&by_op), max_tree_cmp, tree_lookups, max_bin, tree_bins, resizes, promise_checks, json_list(&samples)
     );
     if let Some(p) = report_path {
         std::fs::write(p, &report).unwrap();
@@ -209,6 +211,8 @@ fn cmd_bulk(args: &[String]) {
 fn cmd_conc(args: &[String]) {
     let seed: u64 = arg(args, "--seed").and_then(|s| s.parse().ok()).unwrap_or(1);
     let cases: usize = arg(args, "--cases").and_then(|s| s.parse().ok()).unwrap_or(100);
+    // `--first N`: run the cases N..N+cases of the seed's sequence (for sharding over processes)
+    let first: usize = arg(args, "--first").and_then(|s| s.parse().ok()).unwrap_or(0);
     let big = arg(args, "--big").map(|s| s == "1").unwrap_or(false);
     let budget: usize = arg(args, "--budget").and_then(|s| s.parse().ok()).unwrap_or(20000);
     let only: Option<u64> = arg(args, "--case-seed").and_then(|s| s.parse().ok());
@@ -224,7 +228,7 @@ fn cmd_conc(args: &[String]) {
     let mut sites: std::collections::BTreeSet<String> = Default::default();
     let mut samples = vec![];
     let (mut contended, mut with_resize, mut with_tree) = (0usize, 0usize, 0usize);
-    for i in 0..cases {
+    for i in first..first + cases {
         let cseed = only.unwrap_or(seed.wrapping_mul(0x9E3779B97F4A7C15).wrapping_add(i as u64));
         let mode = arg(args, "--mode").unwrap_or("mixed".into());
         let case = conc::gen_conc_mode(i, cseed, big, &mode);
@@ -272,6 +276,11 @@ fn cmd_conc(args: &[String]) {
         if verbose {
             for c in &r.calls {
                 println!("t{} [{}..{}] {} -> {}", c.tid, c.inv, c.resp, c.op.text(), c.result);
+            }
+            if std::env::var("VERIF_TRACE").is_ok() {
+                for (i, e) in r.trace.iter().enumerate() {
+                    println!("ev {} t{} {:?} {} addr={:#x} a={:#x} b={:#x} seen={:#x} ok={} {}:{}", i, e.tid, e.kind, e.what.rsplit("::").next().unwrap_or(""), e.addr, e.a, e.b, e.seen, e.ok, e.file.rsplit('/').next().unwrap_or(""), e.line);
+                }
             }
             println!("final: {:?}", r.final_contents);
             println!("schedule: {:?}", r.outcome.schedule);
